@@ -65,11 +65,12 @@ class Lossy(Exception):
 class Machine:
     """interprets one wrapper for one concrete digit count L"""
     val_bits = 64            # width of the (unsigned) type the symbolic value has
+    val_max = None           # largest magnitude the value can have, if smaller than the type allows (negative variants)
 
     def val_range(self, v):
         """closed interval of  value / 10^shift  for a value with exactly L digits in its type"""
         d = self.L - v.b
-        top = ((1 << self.val_bits) - 1) // (10 ** v.b)
+        top = (self.val_max if self.val_max is not None else (1 << self.val_bits) - 1) // (10 ** v.b)
         if d <= 0:
             return 0, 0
         lo = 0 if self.L == 1 and v.b == 0 else 10 ** (d - 1)
@@ -191,6 +192,36 @@ class Machine:
                 return Sym('digit', a.a, a.b)
             if op == '/':
                 return Sym('val', a.a, a.b + 1)
+        # division by 10 written as multiplication with a reciprocal and a shift:  (v * M) >> s.  It IS v / 10 for the
+        # digit-count class iff for every v in [lo, hi]:  (v % 10) * 2^s + v * (10 M - 2^s) < 10 * 2^s  (and 10 M >= 2^s);
+        # the left side grows with v for a fixed last digit, so ten candidates decide it exactly
+        if op == '*' and isinstance(b, Sym) and b.kind == 'val' and isinstance(a, int):
+            a, b = b, a
+        if op == '*' and isinstance(a, Sym) and a.kind == 'val' and isinstance(b, int) and b > 1:
+            return Sym('mul', a, b)
+        if op == '>>' and isinstance(a, Sym) and a.kind == 'mul' and isinstance(b, int) and 0 < b < 128:
+            v, M, sh = a.a, a.b, b
+            lo, hi = self.val_range(v)
+            e = 10 * M - (1 << sh)
+            bad = None
+            if e < 0:
+                bad = lo if lo % 10 == 0 else (lo - lo % 10 + 10 if lo - lo % 10 + 10 <= hi else None)
+                if bad is None and hi >= lo:
+                    bad = hi
+            else:
+                for r in range(10):
+                    cand = hi - ((hi - r) % 10)
+                    if cand < lo:
+                        continue
+                    if r * (1 << sh) + cand * e >= 10 * (1 << sh):
+                        bad = cand
+                        break
+            if bad is not None and ((bad * M) >> sh) != bad // 10:
+                raise Lossy('( v * %d) >> %d is not v / 10 for every value with %d digits: %d gives %d instead of %d' % (
+                    M, sh, self.L, bad, (bad * M) >> sh, bad // 10))
+            if bad is not None:
+                raise Unsupported('multiply-shift division: criterion and counter example disagree for %d' % bad)
+            return Sym('val', v.a, v.b + 1)
         if op == '+' and isinstance(a, int) and a == 48 and isinstance(b, Sym):
             if b.kind == 'digit':
                 return Sym('chr', b.a, b.b)
